@@ -99,6 +99,57 @@ def _paths(c):
         paths[fmt] = lambda fmt=fmt: roundtrip(fmt)
     for fmt in ("graphml", "pickle"):
         paths[fmt + ".copy"] = lambda fmt=fmt: roundtrip(fmt).copy()
+
+    def resave(fmt, to_unit):
+        """save, change the node weights on the same object, save again, load the second file"""
+        d = tempfile.mkdtemp(prefix="pyu_c05_", dir="/var/tmp")
+        try:
+            net = base()
+            if not to_unit:
+                net.node_weights = np.ones(n)
+            net.save(os.path.join(d, "first." + fmt), fileformat=fmt)
+            net.node_weights = np.ones(n) if to_unit else w.copy()
+            net.save(os.path.join(d, "second." + fmt), fileformat=fmt)
+            return Network.Load(os.path.join(d, "second." + fmt), fileformat=fmt, silence_level=3)
+        finally:
+            import shutil
+            shutil.rmtree(d, ignore_errors=True)
+
+    for fmt in ("graphml", "pickle"):
+        paths["resave_unit." + fmt] = lambda fmt=fmt: resave(fmt, True)
+        paths["resave_w." + fmt] = lambda fmt=fmt: resave(fmt, False)
+
+    def spatial(kind, fmt):
+        from pyunicorn.core import GeoGrid, GeoNetwork, Grid, SpatialNetwork
+        d = tempfile.mkdtemp(prefix="pyu_c05_", dir="/var/tmp")
+        try:
+            files = (os.path.join(d, "net." + fmt), os.path.join(d, "grid.txt"))
+            lat = np.linspace(-60.0, 75.0, n) if n > 1 else np.array([10.0])
+            lon = np.linspace(-150.0, 170.0, n) if n > 1 else np.array([20.0])
+            if kind == "spatial":
+                grid = Grid(np.arange(3.0), np.array([lat, lon]), silence_level=3)
+                net = SpatialNetwork(grid, adjacency=A.copy(), directed=directed, silence_level=3)
+                net.node_weights = w.copy()
+                cls = SpatialNetwork
+            else:
+                grid = GeoGrid(np.arange(3.0), lat, lon, silence_level=3)
+                net = GeoNetwork(grid, adjacency=A.copy(), directed=directed, node_weight_type=None,
+                                 silence_level=3)
+                if kind == "geo_set":
+                    net.node_weights = w.copy()
+                cls = GeoNetwork
+            if c["hasla"]:
+                net.set_link_attribute("w", la)
+            net.save(files, fileformat=fmt)
+            return cls.Load(files, fileformat=fmt, silence_level=3)
+        finally:
+            import shutil
+            shutil.rmtree(d, ignore_errors=True)
+
+    paths["geo_none.graphml"] = lambda: spatial("geo_none", "graphml")
+    paths["geo_set.graphml"] = lambda: spatial("geo_set", "graphml")
+    paths["geo_set.pickle"] = lambda: spatial("geo_set", "pickle")
+    paths["spatial.graphml"] = lambda: spatial("spatial", "graphml")
     return paths
 
 
